@@ -6,7 +6,7 @@ import json
 from refbufr import frame, codec, tables as rtables, tree as rtree, IllFormed, Unsupported
 from refbufr.codec import GivenSource
 from . import pool as gpool, templates as gtemplates
-from .values import GenSource
+from .values import GenSource, source_for
 
 QUICK_VERSIONS = [13, 19, 25, 33, 40]
 LOCAL_CHOICES = [(98, 0, 1), (98, 0, 101), (98, 0, 2), (98, 0, 3)]
@@ -243,7 +243,7 @@ def gen_case(ch, opts, fixed=None):
     c.tables = pl.tables
     try:
         c.tree = rtree.parse(ids, c.tables)
-        src = GenSource(ch)
+        src = source_for(ch, tfeat)
         c.decoded = codec.walk_all(c.tree, c.tables, nsub, compressed, lambda i: src)
     except (IllFormed, Unsupported) as e:
         raise Reject('illformed: %s' % e)
